@@ -1,5 +1,7 @@
 // Package os forwards to the real os package except for Exit, which ends the
-// controlled execution instead of the process.
+// controlled execution instead of the process, and, inside an execution, Chdir
+// (nothing happens) and OpenFile (an environment choice: the file can be
+// created - then it is the null device - or it cannot).
 package os
 
 import (
@@ -13,4 +15,24 @@ func Exit(code int) {
 		vm.Exit(code)
 	}
 	real.Exit(code)
+}
+
+// Chdir does not move the explorer's working directory.
+func Chdir(dir string) error {
+	if vm.Active() {
+		return nil
+	}
+	return real.Chdir(dir)
+}
+
+// OpenFile: inside an execution the environment decides whether the file can be opened; what is written
+// to it goes nowhere.
+func OpenFile(name string, flag int, perm FileMode) (*File, error) {
+	if vm.Active() {
+		if vm.Choose(2, 1) == 1 {
+			return nil, &real.PathError{Op: "open", Path: name, Err: real.ErrPermission}
+		}
+		return real.OpenFile(real.DevNull, real.O_WRONLY, 0)
+	}
+	return real.OpenFile(name, flag, perm)
 }
